@@ -69,8 +69,35 @@ def detect(d, pids):
     return fired
 
 
+def detect_scratch(d, wt, pids, tag):
+    """same as detect, but on a scratch worktree of /repo's HEAD (lets several changes be evaluated in parallel)"""
+    patch = os.path.join(d, "patch.diff")
+    sh(f"git -C {wt} checkout -q -- . && git -C {wt} checkout -q --detach $(git -C /repo rev-parse HEAD)")
+    rc, out = sh(f"git -C {wt} apply {patch}")
+    if rc != 0:
+        return {"apply_error": out[-400:]}
+    fired = {}
+    try:
+        env = dict(os.environ)
+        env["VERIF_REPO_ROOT"] = wt
+        env["VERIF_EVIDENCE_DIR"] = f"/tmp/seed_eval_ev_{tag}"
+        env["VERIF_CACHE_DIR"] = f"/tmp/seed_eval_cache_{tag}"
+        for pid in pids:
+            rc, out = sh(["/verif/vcheck", pid, "--tier", "quick"], cwd="/verif", env=env, timeout=900)
+            rules = sorted({l.split()[1] for l in out.splitlines() if l.strip().startswith("FINDING")})
+            fired[pid] = {"rc": rc, "rules": rules, "first": next((l.strip()[:260] for l in out.splitlines() if l.strip().startswith("FINDING")), None)}
+    finally:
+        sh(f"git -C {wt} checkout -q -- .")
+    return fired
+
+
 if __name__ == "__main__":
     mode, d = sys.argv[1], sys.argv[2]
+    if mode == "detect_scratch":
+        wt, tag = sys.argv[3], sys.argv[4]
+        pids = sys.argv[5:] or ["C01", "C04", "C05", "C07", "C08", "C09", "C10", "C12", "C13", "C14", "C15", "C18", "C19", "C20"]
+        print(json.dumps(detect_scratch(d, wt, pids, tag), indent=1))
+        sys.exit(0)
     if mode == "confirm":
         print(json.dumps(confirm(d, sys.argv[3]), indent=1))
     else:
